@@ -1,7 +1,275 @@
-"""C14/U1 (part): the two pointer operations of util.Scope that the clone contracts (contracts/ast_clone.py) assume.
-reparent(p) sets the parent and nothing else; get_parent() returns it and changes nothing.  (clone() iterates __dict__
-and stays an assumed contract; __getattr__ fallback likewise.)"""
+"""C14/U1: util.Scope, the scoped dictionary every option / format lookup goes through.
+
+Data structure against an abstract view.  A Scope is
+    D      = self.__dict__    the local dictionary (string -> value), without the two private slots
+    parent = self.__parent    None or another Scope
+and its view is the lookup function of the whole chain
+    HAS(s, k)  =  k in D(s)  or  (parent(s) is not None and HAS(parent(s), k))
+    GET(s, k)  =  D(s)[k]  if k in D(s)  else  GET(parent(s), k)
+The parent's view is abstract here: PHAS(gid, k) / PGET(gid, k) are uninterpreted functions of the parent's identity,
+which no method of Scope changes (frame: the parent object is never in `modifies`).
+
+Python's attribute protocol for an instance of Scope (a class with __getattr__, without __setattr__, __slots__ or
+__getattribute__) is the *assumed* part, stated once in the three built-ins below:
+    getattr(s, k)      = D[k] if k in D else s.__getattr__(k)            (instance dictionary first, then __getattr__)
+    hasattr(s, k)      = getattr(s, k) does not raise AttributeError
+    setattr(s, k, v)   = D[k] = v                                        (no data descriptor of that name on the class)
+Standing assumptions (listed in the evidence): keys are not names of attributes of the class Scope itself (`update`,
+`get`, `clone`, ... would be found on the class before __getattr__ is asked) and do not start with the private prefix
+`_Scope__`; `self.__class__.__name__` is "Scope" (no subclass); the truth value of a Scope object is True (the class
+defines neither __bool__ nor __len__, and __getattr__ is not consulted for special methods).
+
+What the units prove, for every dictionary content, every key and every parent:
+  __getattr__   parent fallback: the parent's own lookup of the same name, AttributeError when there is no parent
+  get           the chain lookup, or the default when the chain does not define the key; nothing changes
+  __contains__  HAS
+  inlocal       k in D: never looks at the parent
+  setdefault    writes the LOCAL dictionary only, and only if the key is not local; every other key keeps its value
+  update        replace=True: every key of d is local afterwards with d's value; replace=False: only keys the chain does
+                not define; keys outside d keep their value; the parent is not written (a sibling scope cannot change)
+  delattrs      the listed keys are not local afterwards, every other key keeps its value
+  clone         a NEW scope (its dictionary is not the original's), same parent, every public key with the same value
+  reparent / get_parent  the pointer operations the clone contracts (contracts/ast_clone.py) use
+"""
+import z3
 from pyvc.unit import Unit
+from pyvc.values import VFun, VBool, VNone, VOpt, VPy, VRef, VStr, HDict, HObj, PyVal, StrS, IntS, BoolS, fresh_name
+
+PHAS = z3.Function("scope_PHAS", IntS, StrS, BoolS)        # the parent's chain defines the key
+PGET = z3.Function("scope_PGET", IntS, StrS, PyVal)        # ... and this is the value it finds
+
+_PARENT = ("obj", "ScopeP", {"gid": "int"})
+_CLASS = ("obj", "Class", {"__name__": ("const", "Scope")})
+
+
+def _self(parent=("opt", _PARENT)):
+    return ("obj", "ScopeD", {"__parent": parent, "__hidden": "int", "__dict__": "dict[py]", "__class__": _CLASS})
+
+
+def _parts(ex, st, obj, node):
+    """(local-keys array, local-values array, parent-has(k) function, parent-get(k) function)"""
+    from pyvc.state import OutOfSubset
+    if isinstance(obj, VOpt):
+        ex.safety(st, "AttributeError", z3.Not(obj.isnone), node, "attribute of None")
+        obj = obj.val
+    if not isinstance(obj, VRef) or not isinstance(st.heap[obj.oid], HObj):
+        raise OutOfSubset("getattr/setattr/hasattr on %r" % (obj,), node)
+    c = st.heap[obj.oid]
+    if c.cls == "ScopeP":
+        g = c.f["gid"].e
+        return None, None, (lambda k: PHAS(g, k)), (lambda k: PGET(g, k)), obj
+    if c.cls != "ScopeD":
+        raise OutOfSubset("getattr/setattr/hasattr on class %s" % c.cls, node)
+    d = st.heap[c.f["__dict__"].oid]
+    p = c.f["__parent"]
+    if isinstance(p, VNone):
+        ph, pg = (lambda k: z3.BoolVal(False)), (lambda k: PyVal.pnone)
+    else:
+        isnone = p.isnone if isinstance(p, VOpt) else z3.BoolVal(False)
+        pref = p.val if isinstance(p, VOpt) else p
+        g = st.heap[pref.oid].f["gid"].e
+        ph, pg = (lambda k: z3.And(z3.Not(isnone), PHAS(g, k))), (lambda k: PGET(g, k))
+    return d.keys, d.vals, ph, pg, obj
+
+
+def _key(ex, st, name, node):
+    if isinstance(name, VPy):
+        ex.safety(st, "TypeError", PyVal.is_pstr(name.e), node, "attribute name must be string")
+        return PyVal.ps(name.e)
+    return ex.want_str(name, st, node)
+
+
+def _b_getattr(ex, st, args, kw, node):
+    from pyvc.state import OutOfSubset
+    if len(args) != 2:
+        raise OutOfSubset("getattr with a default on a Scope", node)
+    keys, vals, ph, pg, _ = _parts(ex, st, args[0], node)
+    k = _key(ex, st, args[1], node)
+    if keys is None:
+        ex.safety(st, "AttributeError", ph(k), node, "the parent chain does not define the key")
+        return VPy(pg(k))
+    local = z3.Select(keys, k)
+    ex.safety(st, "AttributeError", z3.Or(local, ph(k)), node, "neither local nor in the parent chain")
+    return VPy(z3.If(local, z3.Select(vals, k), pg(k)))
+
+
+def _b_hasattr(ex, st, args, kw, node):
+    keys, vals, ph, pg, _ = _parts(ex, st, args[0], node)
+    k = _key(ex, st, args[1], node)
+    return VBool(ph(k) if keys is None else z3.Or(z3.Select(keys, k), ph(k)))
+
+
+def _b_setattr(ex, st, args, kw, node):
+    from pyvc.state import OutOfSubset
+    keys, vals, ph, pg, obj = _parts(ex, st, args[0], node)
+    if keys is None:
+        raise OutOfSubset("setattr on the parent scope", node)
+    k = _key(ex, st, args[1], node)
+    c = st.heap[obj.oid]
+    doid = c.f["__dict__"].oid
+    d = st.heap[doid]
+    size = None if d.size is None else z3.If(z3.Select(d.keys, k), d.size, d.size + 1)
+    st.heap[doid] = HDict(d.ek, z3.Store(d.keys, k, True), z3.Store(d.vals, k, ex.coerce(args[2], d.ek, node)), size=size)
+    return VNone()
+
+
+_BUILTINS = {"getattr": VFun("getattr[attribute protocol of a Scope instance: assumed]", _b_getattr),
+             "hasattr": VFun("hasattr[attribute protocol of a Scope instance: assumed]", _b_hasattr),
+             "setattr": VFun("setattr[attribute protocol of a Scope instance: assumed]", _b_setattr)}
+_SPEC = {"PHAS": PHAS, "PGET": PGET}
+
+# the chain view of `self`, in contract syntax
+HAS = "(%(k)s in self.__dict__ or (self.__parent is not None and PHAS(self.__parent.gid, %(k)s)))"
+DICT_FRAME = ["all(x in self.__dict__ and self.__dict__[x] == old(self).__dict__[x] for x in old(self).__dict__)"]
+
+
+def _unit(name, target, params, **kw):
+    u = Unit(prop="C14", name=name, target="shroud/util.py::Scope." + target, params=params, **kw)
+    u.builtin_overrides = dict(_BUILTINS)
+    u.spec_funcs = dict(_SPEC)
+    u.check_frame = True
+    return u
+
+
+getattr_parent = _unit(
+    "Scope.__getattr__[parent]", "__getattr__", {"self": _self(_PARENT), "name": "str"},
+    modifies=[], raises=["AttributeError"],
+    ensures=["PHAS(self.__parent.gid, name)", "result == PGET(self.__parent.gid, name)"])
+getattr_root = _unit(
+    "Scope.__getattr__[no parent]", "__getattr__", {"self": _self("none"), "name": "str"},
+    modifies=[], raises=["AttributeError"],
+    ensures=["False"],                                   # never returns: the root of the chain has nowhere to look
+    ensures_raise=["exc_class == 'AttributeError'"])
+get_ = _unit(
+    "Scope.get", "get", {"self": _self(), "key": "str", "value": "py"},
+    modifies=[], raises=[],
+    ensures=["implies(key in self.__dict__, result == self.__dict__[key])",
+             "implies(not (key in self.__dict__) and self.__parent is not None and PHAS(self.__parent.gid, key), "
+             "result == PGET(self.__parent.gid, key))",
+             "implies(not %s, result == value)" % (HAS % {"k": "key"})])
+contains = _unit(
+    "Scope.__contains__", "__contains__", {"self": _self(), "item": "str"},
+    modifies=[], raises=[],
+    ensures=["result == %s" % (HAS % {"k": "item"})])
+getitem = _unit(
+    "Scope.__getitem__", "__getitem__", {"self": _self(), "key": "str"},
+    modifies=[], raises=["AttributeError"],
+    ensures=[HAS % {"k": "key"},
+             "implies(key in self.__dict__, result == self.__dict__[key])",
+             "implies(not (key in self.__dict__), result == PGET(self.__parent.gid, key))"])
+inlocal = _unit(
+    "Scope.inlocal", "inlocal", {"self": _self(), "key": "str"},
+    modifies=[], raises=[],
+    ensures=["result == (key in self.__dict__)"])
+setdefault = _unit(
+    "Scope.setdefault", "setdefault", {"self": _self(), "key": "str", "value": "py"},
+    modifies=["self.__dict__"], raises=[],
+    ensures=DICT_FRAME + [
+        "key in self.__dict__",
+        "implies(not (key in old(self).__dict__), self.__dict__[key] == value)",
+        "result == self.__dict__[key]",
+        "all(x == key or x in old(self).__dict__ for x in self.__dict__)"])
+update = _unit(
+    "Scope.update", "update", {"self": _self(), "d": "dict[py]", "replace": "bool"},
+    modifies=["self.__dict__"], raises=[],
+    loops={0: {"index": "kd", "inv": [
+        "all(implies(ITERIDX(x) < kd and replace, x in self.__dict__ and self.__dict__[x] == d[x]) for x in d)",
+        "all(implies(ITERIDX(x) < kd and not replace, %s) for x in d)" % (HAS % {"k": "x"}),
+        "all(implies(not replace and not (x in old(self).__dict__), self.__dict__[x] == d[x]) for x in self.__dict__)",
+        "all(x in self.__dict__ for x in old(self).__dict__)",
+        "all(x in old(self).__dict__ or x in d for x in self.__dict__)",
+        "all(x in d or self.__dict__[x] == old(self).__dict__[x] for x in old(self).__dict__)",
+        "implies(not replace, all(self.__dict__[x] == old(self).__dict__[x] for x in old(self).__dict__))",
+        "implies(not replace, all(x in old(self).__dict__ or not (self.__parent is not None and PHAS(self.__parent.gid, x)) "
+        "for x in self.__dict__))",
+    ]}},
+    ensures=[
+        # replace=True: every key of d is local afterwards, with d's value
+        "implies(replace, all(x in self.__dict__ and self.__dict__[x] == d[x] for x in d))",
+        # replace=False: every key of d is defined by the chain afterwards; a key that became local has d's value
+        "implies(not replace, all(%s for x in d))" % (HAS % {"k": "x"}),
+        "implies(not replace, all(x in old(self).__dict__ or self.__dict__[x] == d[x] for x in self.__dict__))",
+        # nothing local is lost; nothing appears that d did not bring
+        "all(x in self.__dict__ for x in old(self).__dict__)",
+        "all(x in old(self).__dict__ or x in d for x in self.__dict__)",
+        # keys outside d keep their value
+        "all(x in d or self.__dict__[x] == old(self).__dict__[x] for x in old(self).__dict__)",
+        # replace=False never overwrites a local value and never shadows a key the parent chain defines
+        "implies(not replace, all(self.__dict__[x] == old(self).__dict__[x] for x in old(self).__dict__))",
+        "implies(not replace, all(x in old(self).__dict__ or not (self.__parent is not None and PHAS(self.__parent.gid, x)) "
+        "for x in self.__dict__))",
+    ])
+update.dict_iter_complete = True
+from pyvc.values import ITERIDX
+update.spec_funcs["ITERIDX"] = ITERIDX
+delattrs = _unit(
+    "Scope.delattrs", "delattrs", {"self": _self(), "lst": "list[str]"},
+    modifies=["self.__dict__"], raises=[],
+    loops={0: {"index": "kl", "inv": [
+        "all(x in old(self).__dict__ and self.__dict__[x] == old(self).__dict__[x] for x in self.__dict__)",
+        "all(not (lst[j] in self.__dict__) for j in range(kl))",
+    ]}},
+    ensures=[
+        "all(x in old(self).__dict__ and self.__dict__[x] == old(self).__dict__[x] for x in self.__dict__)",
+        "all(not (lst[j] in self.__dict__) for j in range(len(lst)))",
+    ])
+clone = _unit(
+    "Scope.clone", "clone", {"self": _self()},
+    modifies=[], raises=[],
+    loops={0: {"index": "kc", "inv": [
+        "new is not self and new.__dict__ is not self.__dict__",
+        "new.__parent is self.__parent",
+        "skip == '_Scope__'",
+        "all(implies(ITERIDX(x) < kc, x.startswith('_Scope__') or (x in new.__dict__ and new.__dict__[x] == self.__dict__[x])) "
+        "for x in self.__dict__)",
+        "all(x in self.__dict__ and not x.startswith('_Scope__') and new.__dict__[x] == self.__dict__[x] for x in new.__dict__)",
+    ]}},
+    ensures=[
+        "result is not self",
+        "result.__dict__ is not self.__dict__",
+        "result.__parent is self.__parent",
+        "all(x.startswith('_Scope__') or (x in result.__dict__ and result.__dict__[x] == self.__dict__[x]) for x in self.__dict__)",
+        "all(x in self.__dict__ and not x.startswith('_Scope__') for x in result.__dict__)",
+    ])
+
+
+
+def _ctor(ex, st, args, kw, node):
+    """Scope(parent) with no keywords, by the contract of __init__ (unit Scope.__init__ below): parent pointer set,
+    empty local dictionary (update of an empty mapping adds nothing)"""
+    from pyvc.state import OutOfSubset
+    if len(args) != 1 or kw:
+        raise OutOfSubset("Scope(...) with keywords", node)
+    d = st.alloc(HDict("py", z3.K(StrS, z3.BoolVal(False)), z3.K(StrS, PyVal.pnone), size=z3.IntVal(0)))
+    cls = st.alloc(HObj("Class", {"__name__": VStr("Scope")}))
+    from pyvc.values import VInt
+    return st.alloc(HObj("ScopeD", {"__parent": args[0], "__hidden": VInt(43), "__dict__": d, "__class__": cls}))
+
+
+clone.dict_iter_complete = True
+clone.spec_funcs["ITERIDX"] = ITERIDX
+clone.global_callees["Scope"] = VFun("Scope.__init__[contract: parent set, empty local dictionary]", _ctor)
+
+init = _unit(
+    "Scope.__init__", "__init__",
+    {"self": ("obj", "ScopeD", {"__parent": "none", "__hidden": "int", "__dict__": "dict[py]", "__class__": _CLASS}),
+     "parent": ("opt", _PARENT), "kw": "dict[py]"},
+    requires=["all(False for x in self.__dict__)"],      # a new instance: no attribute yet
+    modifies=["self", "self.__dict__"], raises=[],
+    callee_units={("ScopeD", "update"): update},
+    ensures=["self.__parent is parent",
+             "self.__hidden == 43",
+             "all(x in kw for x in self.__dict__)",
+             "all(x in self.__dict__ and self.__dict__[x] == kw[x] for x in kw)"])
+
+# methods of the class used by other methods: by their own contracts
+contains.result = "bool"
+inlocal.result = "bool"
+for _u in (setdefault, update, delattrs, inlocal, clone, get_, getitem):
+    _u.callee_units = dict(_u.callee_units)
+    for _nm, _cu in (("__contains__", contains), ("inlocal", inlocal)):
+        if _cu is not _u:
+            _u.callee_units[("ScopeD", _nm)] = _cu
 
 _SC = ("obj", "ScopeObj", {"__parent": ("opt", ("obj", "ScopeObj", {})), "__hidden": "int"})
 
@@ -19,4 +287,4 @@ get_parent = Unit(
     ensures=["result is self.__parent"], raises=[],
 )
 get_parent.check_frame = True
-UNITS = [reparent, get_parent]
+UNITS = [init, getattr_parent, getattr_root, get_, contains, getitem, inlocal, setdefault, update, delattrs, clone, reparent, get_parent]
